@@ -69,6 +69,7 @@ static bool g_strict_refcount = false;
 static void on_release(void *) { if (g_obs) g_obs->released_hook++; }     // reference count reached 0: would be freed here
 static void on_terminated(void *tp) {
     Obs *o = g_obs; if (!o) return;
+    if (dsched::self() >= 0) dsched::yield_point();      // the callback is user code: other threads may run while it executes
     int n = o->cb_count.fetch_add(1);
     int t = c10_nb_tasks(tp), a = c10_nb_pa(tp);
     if (n == 0) { o->cb_nb_tasks = t; o->cb_nb_pa = a; o->cb_refcount = c10_refcount(tp); o->cb_thread = dsched::self(); o->cb_step = dsched::now(); }
